@@ -23,6 +23,12 @@ func Parse(in string) (sections []*Section, err error) {
 	parser.AddErrorListener(errorListener)
 	parser.BuildParseTrees = true
 	tree := parser.Start()
+	// The walker assumes a tree that conforms to the grammar. After a syntax
+	// error ANTLR's recovery yields error nodes and missing children, so report
+	// the error instead of walking such a tree.
+	if errorListener.ErrorBuilder.Len() != 0 {
+		return nil, fmt.Errorf("%v", errorListener.ErrorBuilder.String())
+	}
 
 	walker := NewWalker(parser)
 	antlr.ParseTreeWalkerDefault.Walk(walker, tree)
